@@ -74,6 +74,7 @@ type VC struct {
 	errs     []string
 	stable   []*Shape // locations unknown calls are assumed not to touch
 	inQuant  int      // >0 while evaluating under a quantifier: terms mention bound variables
+	univ     []func(inst []Term) // re-states the universal assumptions made so far at given terms
 }
 
 func newVC(e *Engine, fn *ssa.Function, c *Contract) *VC {
@@ -114,6 +115,22 @@ func (vc *VC) fresh(prefix, sort string) Term {
 }
 
 func (vc *VC) note(s string) { vc.notes[s]++ }
+
+// instantiateAt: every universal assumption made so far (loop invariants at their cut,
+// callee postconditions) is additionally stated at the given terms (and their neighbours).
+// Sound: these are instances of statements already assumed.
+func (vc *VC) instantiateAt(sks []Term) {
+	if len(sks) == 0 {
+		return
+	}
+	var inst []Term
+	for _, sk := range sks {
+		inst = append(inst, sk, iSub(sk, "1"), iAdd(sk, "1"))
+	}
+	for _, g := range vc.univ {
+		g(inst)
+	}
+}
 
 // name a term if it is large
 func (vc *VC) define(prefix, sort string, t Term) Term {
@@ -200,19 +217,22 @@ func (vc *VC) script(o *Obligation, model bool) string {
 		sb.WriteString("(set-option :produce-models true)\n")
 	}
 	sb.WriteString("(set-logic ALL)\n")
-	for _, s := range vc.eng.cs.Specs {
+	var body strings.Builder
+	for _, c := range vc.decls {
+		body.WriteString(c)
+		body.WriteString("\n")
+	}
+	for _, c := range vc.cmds[:o.Upto] {
+		body.WriteString(c)
+		body.WriteString("\n")
+	}
+	body.WriteString("(assert " + sAnd(o.Reach, sNot(o.Goal)) + ")\n(check-sat)\n")
+	bs := body.String()
+	for _, s := range vc.eng.cs.specsFor(bs) {
 		sb.WriteString(s)
 		sb.WriteString("\n")
 	}
-	for _, c := range vc.decls {
-		sb.WriteString(c)
-		sb.WriteString("\n")
-	}
-	for _, c := range vc.cmds[:o.Upto] {
-		sb.WriteString(c)
-		sb.WriteString("\n")
-	}
-	sb.WriteString("(assert " + sAnd(o.Reach, sNot(o.Goal)) + ")\n(check-sat)\n")
+	sb.WriteString(bs)
 	if model {
 		sb.WriteString("(get-model)\n")
 	}
